@@ -68,6 +68,11 @@ func (grid *RegularGrid) InsertQuad(q Quad) {
 	//   3. merge into that one
 	//   4. make this the quad we are merging and go to 1
 	quadToMerge := &q
+	// A plane takes part in the cascade once: two planes at the same height whose
+	// centres are a float32 step apart, on the two sides of a cell border, would
+	// otherwise be merged into each other for ever (a fifth of a step rounds to
+	// nothing, the centres never become equal).
+	mergedInto := make(map[*Quad]bool)
 	for {
 		// +y:
 		upRay := Ray{
@@ -95,7 +100,12 @@ func (grid *RegularGrid) InsertQuad(q Quad) {
 		}
 
 		if EqualWithEpsilon(hit.Center.y, quadToMerge.Center.y, (float64)(MERGE_EPSILON)) && doHorizontalPlanesOverlap(*hit, *quadToMerge) {
+			if hit == quadToMerge || mergedInto[hit] {
+				quadToMerge = nil
+				break
+			}
 			grid.mergeQuads(hit, quadToMerge)
+			mergedInto[hit] = true
 
 			if hit.Center.Equal(quadToMerge.Center) {
 				quadToMerge = nil
